@@ -62,9 +62,12 @@ pub fn tabs_everywhere(_args: &[String]) -> String {
                 _ => { write!(w, "a{}b", "\t").unwrap(); }
             }
         });
-        let f = indicatif::verif_hooks::style::frame(&style, Some(10), 1, "", "", 0, 0, 80);
+        let term = indicatif::InMemoryTerm::new(4, 80);
+        let pb = indicatif::ProgressBar::with_draw_target(Some(10), indicatif::ProgressDrawTarget::term_like(Box::new(term.clone())));
+        pb.set_style(style);
+        pb.tick();
         tried += 1;
-        let got = f.lines.get(0).map(|l| l.1.clone()).unwrap_or_default();
+        let got = term.contents();
         let want = format!("a{}b", sp(8));
         if got != want {
             return fail("C16 the output of a custom key reaches the line tab-free, however it is written", &[format!("custom key writing a tab via {}", name)], &want, &got);
